@@ -51,6 +51,39 @@ theorem C14_tree_root_first (t : Dir) : t.flatten.head? = some t.files := by
   cases t with
   | mk fs subs => simp [Dir.flatten, Dir.files]
 
+mutual
+theorem at_before : ∀ (t : Dir) (p : List Nat) (i : Nat) (d e : Dir), t.at? p = some d → t.at? (p ++ [i]) = some e →
+    [d.files, e.files].Sublist t.flatten
+  | .mk fs subs, [], i, d, e, h1, h2 => by
+    simp only [Dir.at?, Option.some.injEq] at h1
+    subst h1
+    simp only [List.nil_append, Dir.at?] at h2
+    have hm := atAll_mem subs i [] e h2
+    simp only [Dir.flatten, Dir.files]
+    exact List.Sublist.cons₂ _ (List.singleton_sublist.mpr hm)
+  | .mk fs subs, j :: p, i, d, e, h1, h2 => by
+    simp only [Dir.at?] at h1
+    simp only [List.cons_append, Dir.at?] at h2
+    simp only [Dir.flatten]
+    exact List.Sublist.cons _ (atAll_before subs j p i d e h1 h2)
+theorem atAll_before : ∀ (ds : List Dir) (j : Nat) (p : List Nat) (i : Nat) (d e : Dir), atAll ds j p = some d →
+    atAll ds j (p ++ [i]) = some e → [d.files, e.files].Sublist (flattenAll ds)
+  | [], _, _, _, _, _, h1, _ => by simp [atAll] at h1
+  | t :: ds, 0, p, i, d, e, h1, h2 => by
+    simp only [atAll] at h1 h2
+    simp only [flattenAll]
+    exact (at_before t p i d e h1 h2).trans (List.sublist_append_left _ _)
+  | t :: ds, j + 1, p, i, d, e, h1, h2 => by
+    simp only [atAll] at h1 h2
+    simp only [flattenAll]
+    exact (atAll_before ds j p i d e h1 h2).trans (List.sublist_append_right _ _)
+end
+
+/-- **C14_tree_parent_first**: a directory is searched before each of its sub-directories, at any depth - a file found in a
+directory shadows a same-named file in the directories below it. -/
+theorem C14_tree_parent_first (t : Dir) (p : List Nat) (i : Nat) (d e : Dir) (h1 : t.at? p = some d)
+    (h2 : t.at? (p ++ [i]) = some e) : [d.files, e.files].Sublist t.flatten := at_before t p i d e h1 h2
+
 /-- a tree three levels deep: root, two children, a grandchild under the first -/
 example : (Dir.mk ["a"] [.mk ["b"] [.mk ["c"] []], .mk ["d"] []]).flatten = [["a"], ["b"], ["c"], ["d"]] := by
   simp [Dir.flatten, flattenAll]
